@@ -54,7 +54,10 @@ def native_run(h, tests, release=False):
     res = {}
     for (_k, _d, n, _s) in tests:
         m = re.search(r"test \S*%s \.\.\. (\w+)" % re.escape(n), out)
-        res[n] = (m is not None and m.group(1) == "FAILED")
+        # a panic inside a destructor during unwinding aborts the test process: no "FAILED" line is
+        # printed, but the panic of this very test is in the output
+        aborted = re.search(r"thread '\S*%s' \(\d+\) panicked at" % re.escape(n), out) is not None
+        res[n] = (m is not None and m.group(1) == "FAILED") or (m is None and aborted)
     return res, out
 
 
